@@ -3,6 +3,7 @@ package main
 import (
 	"go/token"
 	"go/types"
+	"strings"
 
 	"golang.org/x/tools/go/ssa"
 )
@@ -552,7 +553,21 @@ func paramFor(g *ssa.Function, c callSite, v ssa.Value) *ssa.Parameter {
 
 // flowsUnchanged: v is src itself, possibly handed on through local variables (also captured
 // ones), phis or the parameter of a transparent helper — never transformed.
-func flowsUnchanged(v, src ssa.Value) bool {
+func flowsUnchanged(v, src ssa.Value) bool { return flowsUnchangedVia(v, src, nil) }
+
+// flowsUnchangedOrCopied: as flowsUnchanged, and a private copy of the text (utils.CopyString, strings.Clone) is the same text.
+func flowsUnchangedOrCopied(v, src ssa.Value) bool {
+	return flowsUnchangedVia(v, src, func(c *ssa.Call) ssa.Value {
+		nm := calleeName(&c.Call)
+		if (strings.HasSuffix(nm, "utils/v2.CopyString") || nm == "strings.Clone") && len(c.Call.Args) == 1 {
+			return c.Call.Args[0]
+		}
+		return nil
+	})
+}
+
+// flowsUnchangedVia: through, when given, names the operand a call passes on unchanged (nil: the call is opaque).
+func flowsUnchangedVia(v, src ssa.Value, through func(*ssa.Call) ssa.Value) bool {
 	seen := map[ssa.Value]bool{}
 	var rec func(v ssa.Value, depth int) bool
 	rec = func(v ssa.Value, depth int) bool {
@@ -594,6 +609,13 @@ func flowsUnchanged(v, src ssa.Value) bool {
 				}
 			}
 			return len(sts) > 0
+		case *ssa.Call:
+			if through != nil {
+				if arg := through(x); arg != nil {
+					return rec(arg, depth)
+				}
+			}
+			return false
 		case *ssa.Parameter:
 			g := x.Parent()
 			if g == nil || !isTransparent(g, pkgOfFn(g)) {
